@@ -427,7 +427,9 @@ func c03CLICheck(c *core.Ctx, cs c03Case, res c03Result) {
 	if err := os.WriteFile(pf, src, 0o644); err != nil {
 		return
 	}
-	cmd := exec.Command(filepath.Join(core.BuildDir, "goawk"), "-f", pf)
+	// -d: parse, print the tree and exit — the program itself is never run here (C03 is about
+	// parsing; a valid program may loop forever or read input).
+	cmd := exec.Command(filepath.Join(core.BuildDir, "goawk"), "-d", "-f", pf)
 	cmd.Stdin = strings.NewReader("")
 	var stdout, stderr bytes.Buffer
 	cmd.Stdout, cmd.Stderr = &stdout, &stderr
@@ -533,6 +535,52 @@ func genNumberForm(i int, rng *rand.Rand) []byte {
 	default:
 		return []byte("BEGIN { x = 1\n y = " + f + t + "\n z = = }\n")
 	}
+}
+
+
+// genSemantic builds programs that are syntactically fine but rejected by the resolver
+// (scalar/array conflicts through every syntactic form that names an array or a scalar,
+// special variables and function names misused, undefined functions, too many arguments), so
+// that error positions produced after parsing proper are exercised too.
+var c03ArrayUses = []string{
+	"N[1] = 1", "x = N[i]", "if (1 in N) x = 1", "if ((1, 2) in N) x = 1", "for (k in N) x = k", "delete N", "delete N[1]",
+	"split(\"a b\", N)", "fa(N)", "getline N[1]", "N[1]++", "++N[1]", "sub(/a/, \"b\", N[1])", "x = (i, j) in N", "x = length(N) + N[1]",
+}
+var c03ScalarUses = []string{
+	"N = 1", "x = N + 1", "N++", "print N", "getline N", "fs(N)", "for (N in arr) x = 1", "x = $N", "x = N ~ /a/", "N += 2", "x = -N", "printf \"%s\", N",
+}
+
+func genSemantic(i int, rng *rand.Rand) []byte {
+	a := c03ArrayUses[i%len(c03ArrayUses)]
+	sc := c03ScalarUses[(i/len(c03ArrayUses))%len(c03ScalarUses)]
+	variant := (i / (len(c03ArrayUses) * len(c03ScalarUses))) % 8
+	name := "v"
+	pre := "function fa(a) { a[1] = 1 }\nfunction fs(s) { s = 1 }\n"
+	first, second := a, sc
+	if variant&1 == 1 {
+		first, second = sc, a
+	}
+	switch variant >> 1 {
+	case 1:
+		name = "NR" // special variable used as an array
+	case 2:
+		name = "fa" // function name used as a variable
+	case 3:
+		name = "p" // parameter: conflict inside a function body
+	}
+	first = strings.ReplaceAll(first, "N", name)
+	second = strings.ReplaceAll(second, "N", name)
+	seps := []string{"; ", "\n  ", "\r\n\t", " ;\n\n    ", "\n# c\n  "}
+	sep := seps[rng.Intn(len(seps))]
+	pad := strings.Repeat(" ", rng.Intn(4))
+	if variant>>1 == 3 {
+		return []byte(pre + "function g(p) {" + pad + first + sep + second + " }\nBEGIN { g(1) }\n")
+	}
+	extra := []string{"", "BEGIN { undefined_fn(1) }\n", "BEGIN { fs(1, 2) }\n", "function fa(z) { }\n", "function h(q, q) { }\n", "BEGIN { x = 1; x() }\n"}[rng.Intn(6)]
+	if rng.Intn(3) > 0 {
+		extra = ""
+	}
+	return []byte(pre + "BEGIN {" + pad + first + sep + second + " }\n" + extra)
 }
 
 func genMutateCorpus(rng *rand.Rand, progs []string) ([]byte, string) {
@@ -686,6 +734,12 @@ func init() {
 			for i := 0; i < 60; i++ {
 				if c.Mine(i) {
 					one("deep", genDeep(i), i*cliEvery) // every deep case also through the CLI
+				}
+			}
+			ns := len(c03ArrayUses) * len(c03ScalarUses) * 8
+			for i := 0; i < ns; i++ {
+				if c.Mine(i) {
+					one("semantic", genSemantic(i, rng), i*(cliEvery/4)) // every 4th also through the CLI
 				}
 			}
 			for i := 0; i < total; i++ {
